@@ -45,6 +45,40 @@ def start_watchdog(seconds):
     t.start()
 
 
+def run_other_backend(ctx, prop, tier):
+    """Repeat the stream under the pure-Python protobuf runtime (the parent
+    runs under upb) and merge what it found."""
+    import subprocess
+    env = dict(os.environ, PROTOCOL_BUFFERS_PYTHON_IMPLEMENTATION="python",
+               VERIF_SEED=str(ctx.seed + 1))
+    try:
+        p = subprocess.run([sys.executable, os.path.abspath(__file__), prop,
+                            "--tier", tier, "--child"], env=env,
+                           stdout=subprocess.PIPE, stderr=subprocess.PIPE,
+                           text=True, timeout=3600)
+    except subprocess.TimeoutExpired:
+        raise core.HarnessError("second protobuf backend run timed out")
+    line = [l for l in p.stdout.splitlines() if l.startswith("CHILD-SUMMARY ")]
+    if not line:
+        core.log(p.stderr[-2000:])
+        raise core.HarnessError("second protobuf backend run failed")
+    s = json.loads(line[-1][len("CHILD-SUMMARY "):])
+    if "harness_error" in s:
+        raise core.HarnessError("second backend: " + s["harness_error"])
+    ctx.extra["backends"] = ["upb", s["backend"]]
+    ctx.extra["second_backend_evaluations"] = s["evaluations"]
+    ctx.evaluations += s["evaluations"]
+    ctx.traces += s["traces"]
+    for k, v in s["hist"].items():
+        ctx.hist[s["backend"] + ":" + k] += v
+    for v in s["violations"]:
+        ctx.violations.append(tuple(v))
+    for k, v in s["known_hits"].items():
+        ctx.known_hits.setdefault(k, v)
+    ctx.tie_broken += ["[%s backend] %s" % (s["backend"], b)
+                       for b in s["tie_broken"]]
+
+
 def main():
     ap = argparse.ArgumentParser()
     ap.add_argument("prop")
@@ -53,6 +87,9 @@ def main():
     ap.add_argument("--replay")
     ap.add_argument("--no-build", action="store_true",
                     help="skip lake build (setup just did it)")
+    ap.add_argument("--child", action="store_true",
+                    help="internal: run only the stream (second protobuf "
+                         "backend) and print a JSON summary")
     args = ap.parse_args()
     prop = args.prop
     start_watchdog(int(os.environ.get(
@@ -85,6 +122,22 @@ def main():
     ctx.t0 = t0
     ctx.descs, ctx.proto_order, ctx.proto_parsed = descs, order, parsed
     mod = importlib.import_module("props." + prop)
+    if args.child:
+        from google.protobuf.internal import api_implementation
+        try:
+            mod.run(ctx)
+            summary = {"backend": api_implementation.Type(),
+                       "evaluations": ctx.evaluations,
+                       "traces": ctx.traces,
+                       "hist": dict(ctx.hist),
+                       "nontrivial": len(ctx.nontrivial),
+                       "violations": ctx.violations,
+                       "known_hits": dict(ctx.known_hits),
+                       "tie_broken": ctx.tie_broken[:20]}
+        except core.HarnessError as e:
+            summary = {"harness_error": str(e)}
+        print("CHILD-SUMMARY " + json.dumps(summary))
+        return 0
 
     obl = core.load_obligations().get(prop, {})
     theorems = list(obl.get("theorems", []))
@@ -138,6 +191,8 @@ def main():
             mod.replay(ctx, data)
         else:
             mod.run(ctx)
+            if getattr(mod, "BOTH_BACKENDS", False):
+                run_other_backend(ctx, prop, args.tier)
             for b in ctx.tie_broken[:10]:
                 core.log("tie broken:", b)
             if ctx.tie_broken and not ctx.violations:
